@@ -26,26 +26,17 @@ theorem to_c_ident_escapes_safe : ∀ e ∈ escapeTable, e.2 ∉ cKeywords ∧ e
   have := List.all_eq_true.mp escapes_safe_all e he
   simpa using this
 
-/- Full statement:  ∀ name, toCIdent name ∉ cKeywords.   It is false of the current table: -/
+/-- **`to_c_ident` never yields a reserved word** — for every input string (upper-case words, any
+number of words, any characters): the table is consulted with the snake-cased name and every
+reserved word of the dialect (`CIdentSpec.cKeywords`, incl. `restrict` and `typeof`) has an arm.
+(Before /repo 89692d8 this was false: `restrict`/`typeof` had no arm and `INT` became `int`.) -/
+theorem to_c_ident_not_keyword (name : List Char) : toCIdent name ∉ cKeywords :=
+  toCIdent_not_keyword name
 
-/-- **Full statement is false (missing keyword).**  `restrict` (C99) is not in the table: a record
-field or parameter named `restrict` is emitted verbatim and the header does not compile. -/
-theorem to_c_ident_not_keyword_full_false :
-    ¬ (∀ name : List Char, toCIdent name ∉ cKeywords) := by
-  intro h
-  exact h "restrict".toList (by decide +kernel)
-
-/-- **Full statement is false (lookup before case folding).**  The table is consulted with the WIT
-name as written; an upper-case word (`INT`, valid in WIT) misses it and `to_snake_case` then
-produces the keyword `int`. -/
-theorem to_c_ident_uppercase_keyword : toCIdent "INT".toList = "int".toList ∧ "int".toList ∈ cKeywords := by
+/-- … in particular upper-case spellings of keywords are escaped. -/
+theorem to_c_ident_uppercase_keyword :
+    toCIdent "INT".toList = "int_".toList ∧ toCIdent "restrict".toList = "restrict_".toList := by
   decide +kernel
-
-/-- **Partial form.**  For every lower-case kebab name (any number of words) other than the two
-keywords the table misses, `to_c_ident` never yields a reserved word. -/
-theorem to_c_ident_not_keyword_partial (name : List Char) (hs : simpleTail true name = true)
-    (hm : name ∉ missingKeywords) : toCIdent name ∉ cKeywords :=
-  toCIdent_not_keyword name hs hm
 
 /-- Non-vacuity: `static` is escaped, `my-field` is snake-cased. -/
 example : toCIdent "static".toList = "static_".toList ∧ toCIdent "my-field".toList = "my_field".toList ∧
